@@ -433,6 +433,12 @@ func (w *Writer) Write(v interface{}) *Writer {
 		return w
 	}
 
+	// 除 *[]byte（nil 写入长度 0）外，nil 指针一律报错而非解引用 panic
+	if _, isBytesPtr := v.(*[]byte); !isBytesPtr && nilPointer(v) {
+		w.err = fmt.Errorf("cannot write nil pointer: %T", v)
+		return w
+	}
+
 	switch val := v.(type) {
 	case *byte:
 		w.writeByte(*val)
@@ -541,9 +547,29 @@ func (w *Writer) writeReflect(v interface{}) error {
 		return nil
 
 	default:
-		w.Write(v)
+		// 仅当值属于 Write 可直接处理的基础类型时才回到 Write，否则报错；
+		// 原先无条件回调 Write 会在不支持的类型（int、具名类型、nil 接口等）上无限互相递归直至栈溢出
+		if !rv.IsValid() || !isDirectlyWritable(rv.Interface()) {
+			return fmt.Errorf("unsupported type for writing: %T", v)
+		}
+		w.Write(rv.Interface())
 		return nil
 	}
+}
+
+// nilPointer 判断 v 是否为（任意指针类型的）nil 指针
+func nilPointer(v interface{}) bool {
+	rv := reflect.ValueOf(v)
+	return rv.Kind() == reflect.Ptr && rv.IsNil()
+}
+
+// isDirectlyWritable 判断值是否属于 Write 的类型分支可直接处理的基础类型
+func isDirectlyWritable(v interface{}) bool {
+	switch v.(type) {
+	case byte, int8, int16, uint16, uint32, int32, uint64, int64, float32, float64, bool, string, []byte:
+		return true
+	}
+	return false
 }
 
 // WriteFrom 一次性写入多个值
